@@ -126,7 +126,9 @@ def judge_pair(case, res):
             out.append({"class": "joint-succeeds-solo-fails", "detail": {"part": "A", "cause": "solo-step:" + "+".join(failing) if failing else "solo-driver",
                                                                           "solo_rc": [s["rc"] for s in solos], "differing": ",".join(m["differing"])}})
         else:
-            out.append({"class": "discard", "detail": {}})
+            bad = [i for i, ok in enumerate(solo_ok) if not ok]
+            tail = (solos[bad[0]].get("steps_tail") or solos[bad[0]].get("driver_tail") or "")[-500:]
+            out.append({"class": "configuration-does-not-build", "detail": {"part": "A", "cause": "solo", "opts": m["opts"][bad[0]], "tail": tail}})
         return out
     if joint["rc"] != 0:
         failing = None
@@ -456,7 +458,8 @@ def judge_single(case, res):
                 if a["k"] == "hb.unordered_access":
                     out.append({"class": a["k"], "detail": {"part": "B", "edge": a.get("edge"), "path": a.get("path")}})
     if lab["base"]["rc"] != 0 or not ins["base"].get("ok"):
-        return out + [{"class": "discard", "detail": {"why": "base does not build", "tail": (lab["base"].get("steps_tail") or "")[-300:]}}]
+        return out + [{"class": "configuration-does-not-build", "detail": {"part": "B", "field": "(base)", "mode": "file", "opts": m["base"],
+                                                                          "tail": (lab["base"].get("steps_tail") or lab["base"].get("driver_tail") or "")[-500:]}}]
     for oracle, d in _check_observables(m["base"], ins["base"]["info"]):
         out.append({"class": "option-not-reflected", "detail": {"part": "B", "field": "(base/defaults)", "oracle": oracle, "mode": "file", "got_want": d, "fmt": m["base"]["color_format"]}})
     shas = []
